@@ -249,6 +249,10 @@ func init() {
 			"emission > 0; block heights and block times are concrete",
 		}, commonAssumptions...), HSpec{Pkg: appdbPkg, Func: "VerifHarness_C29_SnapshotRestore", Tier: "quick", Configs: cs,
 			Bounds: "producer: genesis + at most one further block, state tree of at most 6 leaves (one with an empty value); one snapshot, one restore into a fresh node, one further block on both; emission, price reserves, last reward unbounded; app-hash byte, leaf bytes, validator power symbolic"})
+		add("C29", append([]string{
+			"node level: Blockchain values assembled as NewMinterBlockchain does (MemDB storages, mock events store), the producer initialised by the real initState; block 1 on the producer, snapshot of height 1 by the real AppDB.Snapshot, AppDB.Restore into a fresh node, block 2 through the real BeginBlock/EndBlock/Commit on both (lazy initState on the restored one); stream and IAVL export/import as modelled above; no transactions in the blocks; the app hash in the model is a function of the tree version (the compared content is the leaves)",
+		}, blockAssumptions...), HSpec{Pkg: minterPkg, Func: "VerifHarness_C29_RestoredNodeContinues", Tier: "quick",
+			Bounds: "two candidates/validators with symbolic stakes, reward and fees symbolic, each validator present or absent in block 2; heights 1 and 2"})
 	}
 
 	// ---------------------------------------------------------- C09 state modules / C08 map order
